@@ -16,7 +16,8 @@ LEVEL = "exploration"
 RULE = (
     "cases: (tool, options, input) triples - annotator (default / -a / -e / --csv --json --bpseq --stems-csv --inter-stem-csv, "
     "with and without -f), motif_extractor, splitter (PDB and mmCIF output), clashfinder --csv, transformer, adapter, unifier and "
-    "two library scripts printing all_dot_brackets/elements/Mapping2D3D outputs in list order - over corpus structures and generated "
+    "library scripts printing all_dot_brackets/elements/Mapping2D3D outputs in list order and the adapter's library entry point fed with pair lists "
+    "that give residues several canonical partners of the same rank - over corpus structures and generated "
     "knotted BPSEQ files; each is executed in fresh interpreters under PYTHONHASHSEED in {0,1,2} (quick) / {0,1,2,4242,random,random} "
     "(thorough) and twice in-process; stdout and every output file are compared byte for byte. Non-trivial = the first run "
     "produced at least 1 non-empty output; distinct = canonical JSON hash of the triple."
@@ -72,6 +73,11 @@ def cases(shard, nshards, seed, tier):
                 yield {"family": f"cli-{mod}", "module": mod, "argv": argv, "input": inp}
     if mine():
         yield {"family": "cli-adapter", "module": "adapter", "argv": ["{in}", "--external", "{repo}/tests/184D-fr3d.txt", "--tool", "fr3d", "-a", "--csv", "o.csv"], "input": "tests/184D.cif"}
+    # an external tool's pair list with same-rank conflicts (a residue with two canonical partners)
+    for inp in ["tests/488d.pdb", "tests/1ehz-assembly-1.cif", "tests/4qln.cif", "tests/1E7K_1_C.cif"] + (["tests/8btk_B7.cif", "tests/1DFU_1_M-N.cif", "tests/4WTI_1_T-P.cif"] if tier == "thorough" else []):
+        for t in range(2 if tier == "quick" else 6):
+            if mine():
+                yield {"family": "lib-external-conflicts", "module": "external_conflicts", "argv": ["{in}", f"{seed}:{inp}:{t}"], "input": inp}
     # one interpreter handling several inputs in a row vs a fresh interpreter per input
     for i in range(6 if tier == "quick" else 60):
         if mine():
@@ -149,7 +155,21 @@ def _batch_case(case, rec):
             single = "lib2d_batch"
         else:
             files = [f for f in _corpus() if os.path.getsize(os.path.join(core.REPO, f)) < 400_000]
-            paths = [os.path.join(core.REPO, f) for f in rng.sample(files, 3)]
+            paths = [os.path.join(core.REPO, f) for f in rng.sample(files, 2)]
+            # ... and another conformation of a multi-stem structure (same identifiers and numbering,
+            # slightly different coordinates), as frames of a trajectory or models of an ensemble are
+            from vmon import emit, gen3d
+
+            core.setup_path()
+            src = rng.choice(["tests/1ehz-assembly-1.cif", "tests/4qln.cif", "tests/1E7K_1_C.cif", "tests/1DFU_1_M-N.cif", "tests/488d.pdb"])
+            base = gen3d.load(src)
+            for k, sg in enumerate((0.0, 0.08)):
+                conf = gen3d.apply_ops(base, [{"op": "jitter", "seed": f"{seed}:C14:conf:{case['i']}:{k}", "sigma": sg}]) if sg else base
+                rows = emit.rows_from_structure(conf)
+                pth = os.path.join(workdir, f"conf{k}.cif")
+                open(pth, "w").write(emit.emit_cif(rows))
+                paths.append(pth)
+            rng.shuffle(paths)
             single = "lib3d_batch"
         env = dict(os.environ, PYTHONHASHSEED="0", LOGLEVEL="CRITICAL", VERIF_REPO=core.REPO)
 
@@ -230,7 +250,7 @@ def run_case(case, rec):
         if diff:
             mech = f"{case['module']}:{diff['output'].split('/')[-1].split('_model_')[0]}:{'reordered' if diff['same-multiset-of-lines'] else 'content'}"
         rec.check("outputs.byte-identical-across-seeds", diff is None, lambda: {"case": case, "diff": diff}, mechanism=mech)
-        if case["module"] in ("lib2d", "lib3d") and base["<rc>"] == "0":
+        if case["module"] in ("lib2d", "lib3d", "external_conflicts") and base["<rc>"] == "0":
             rec.check("outputs.inprocess-repeat-identical", "INPROCESS-REPEAT-EQUAL True" in base["<stdout>"], lambda: {"case": case})
         rec.count(f"runs", len(runs))
     finally:
